@@ -92,6 +92,20 @@ Proof.
 Qed.
 
 (* ---------- labels ---------- *)
+(* the base handed to strconv.FormatInt in AmountUnit.String is the source's literal 10 *)
+Lemma lit_String_base_eq : lit_String_base = 10%Z.
+Proof. reflexivity. Qed.
+
+Lemma digits_fuel_10 (fuel : nat) : forall n acc, digits_fuel 10 fuel n acc = dec_fuel fuel n acc.
+Proof.
+  induction fuel as [|f IH]; intros n acc; [reflexivity|]. cbn [digits_fuel dec_fuel]. cbv zeta.
+  assert (H : (n mod 10 <? 10)%Z = true) by (apply Z.ltb_lt; apply Z.mod_pos_bound; lia).
+  rewrite H. destruct (n / 10 =? 0)%Z; [reflexivity|apply IH].
+Qed.
+
+Lemma fmt_int_dec (u : Z) : fmt_int lit_String_base u = dec_Z u.
+Proof. rewrite lit_String_base_eq. unfold fmt_int, dec_Z, dec_nat. rewrite !digits_fuel_10. reflexivity. Qed.
+
 Theorem unit_labels :
   unit_string c_AmountMegaBCH = [77; 66; 67; 72]%N /\
   unit_string c_AmountKiloBCH = [107; 66; 67; 72]%N /\
@@ -109,7 +123,7 @@ Proof.
   repeat match goal with
   | |- context [(u =? ?c)%Z] => destruct (Z.eqb_spec u c) as [->|_]; [exfalso; apply Hu; simpl; tauto|]
   end.
-  reflexivity.
+  rewrite fmt_int_dec. reflexivity.
 Qed.
 
 (* ---------- the known finding: units below Satoshi ---------- *)
@@ -187,7 +201,7 @@ Theorem to_unit_subsatoshi (a u : Z) :
   (Z.abs a <= 2 ^ 53)%Z -> (-22 <= u + 8 < 0)%Z ->
   B2R (to_unit a u) = RN (IZR a / RN (1 / IZR (10 ^ (- (u + 8))))) /\ is_finite (to_unit a u) = true.
 Proof.
-  intros Ha Hu. unfold to_unit. rewrite lit_ToUnit_8_eq.
+  intros Ha Hu. unfold to_unit. rewrite lit_ToUnit_8_eq. rewrite wrap64_small by lia.
   destruct (of_Z_exact a Ha) as [Hav Haf].
   destruct (pow10_neg (- (u + 8))) as [Hpv Hpf]; [lia|].
   replace (- - (u + 8))%Z with (u + 8)%Z in * by lia.
